@@ -40,7 +40,7 @@ def decorate(r, spec, pool):
     for n in spec["nodes"]:
         o = {}
         sw = r.choice(["ALWAYS", "ALWAYS", "ALWAYS", "TARGET", "EXPLICIT", "NEVER"])
-        if n["kind"] == "multi":
+        if "names" in n:
             o["save_when"] = {d: r.choice(["ALWAYS", "ALWAYS", "TARGET", "EXPLICIT", "NEVER"]) for d in n["names"]}
             o["rechunk_on_save"] = {d: r.random() < 0.5 for d in n["names"]}
         else:
@@ -52,12 +52,13 @@ def decorate(r, spec, pool):
         n["opts"] = o
 
 
-def gen(seed, tier, kinds=None, must=None):
+def gen(seed, tier, kinds=None, must=None, **graph_opts):
     r = rng_for(seed, "workload")
     big = tier == "thorough"
-    spec = G.gen_graph(r, n_derived=(1, 6 if big else 5), n_sources=(1, 3 if big else 2),
-                       kinds=kinds or KINDS, must_have=must or MUST,
-                       n_rows=(0, 16 if big else 10), max_chunks=8)
+    go = dict(n_derived=(1, 6 if big else 5), n_sources=(1, 3 if big else 2),
+              kinds=kinds or KINDS, must_have=must or MUST, n_rows=(0, 16 if big else 10), max_chunks=8)
+    go.update(graph_opts)
+    spec = G.gen_graph(r, **go)
     types = [d for n in spec["nodes"] for d in P.names_of(n)]
     derived = [d for n in spec["nodes"] if n["kind"] != "source" for d in P.names_of(n)]
     if must or MUST:
